@@ -149,6 +149,7 @@ package scheduler
 //@   requires s != nil && s.taskRunner != nil && schedulable(g)
 //@   owns x *Stage :: !spawned[x] && x.Name in g.nodes && g.nodes[x.Name] == x
 //@   modifies *
+//@   ensures #unchanged-runner s.taskRunner == old(s.taskRunner)
 //@   ensures #C03.quiescent s.cancelled == 1 || (forall n string :: n in g.nodes ==> terminal(g.nodes[n]))
 //@   loop 1 "!s.isDone(g)"
 //@     invariant #C04.spawn-all readyCount - old(readyCount) == spawnCount - old(spawnCount)
@@ -197,3 +198,7 @@ package scheduler
 //@   nomod
 //@   ensures result#1 == nil ==> result != nil && fresh(result) && wfG(result)
 //@   ensures result#1 == nil && len(stages) == 0 ==> (forall n string :: !(n in result.nodes) && len(result.to[n]) == 0)
+
+//@ func NewScheduler
+//@   nomod
+//@   ensures result != nil && fresh(result) && result.taskRunner == r
